@@ -68,8 +68,10 @@ def _variants(tok: bytes, mut: str, rng, quick: bool, other_kind: bytes, other_s
         return foreign
     if mut == "crossident":
         return cross
-    if mut == "absent":
+    if mut in ("absent",):
         return [None]
+    if mut == "stale":
+        return [tok]        # untouched; the driver ages it past the TTL while keeping the cursor fresh
     raise ValueError(mut)
 
 
@@ -102,6 +104,8 @@ def run(ctx: Ctx) -> None:
         t0 = clock.now
         warm = H.Worker(key, 64, ttl, "w1")
         cold = H.Worker(key, 0, ttl, "w2")
+        warm_off = H.Worker(key, 64, 0, "w1")       # the same deployment with token_ttl = 0 (expiry disabled)
+        cold_off = H.Worker(key, 0, 0, "w2")
         ref = {}
         # foreign-key tokens (keys of several lengths) and sanity that odd key lengths work at all
         foreign_pairs = []
@@ -120,10 +124,11 @@ def run(ctx: Ctx) -> None:
             c = cj["case"]
             for ident in (("A",) if ctx.quick and c["mut"] in ("flip", "trunc") else ("A", "anon")):
                 clock.now = t0
-                a = warm.init("xa", ident)
-                b = warm.init("xa", ident)          # another stream of the same identity and method
+                w_init = warm if c["ttl"] == "on" else warm_off
+                a = w_init.init("xa", ident)
+                b = w_init.init("xa", ident)          # another stream of the same identity and method
                 others = [i for i in ("anon", "A", "B", "C") if i != ident]
-                cross_tokens = {o: warm.init("xa", o) for o in others}
+                cross_tokens = {o: w_init.init("xa", o) for o in others}
                 cur, call = a["cursor"], a["call"]
                 for tok in (cur, call):
                     if H.SECRET.encode() in tok or H.SECRET.encode() in _dec(tok):
@@ -135,8 +140,19 @@ def run(ctx: Ctx) -> None:
                                other_stream=b["cursor"] if c["which"] == "cursor" else b["call"],
                                foreign=[p[0] if c["which"] == "cursor" else p[1] for p in foreign_pairs],
                                cross=[(x["cursor"] if c["which"] == "cursor" else x["call"]) for x in cross_tokens.values()])
-                wk = warm if c["cache"] == "warm" else cold
+                wk = (warm if c["cache"] == "warm" else cold) if c["ttl"] == "on" else (warm_off if c["cache"] == "warm" else cold_off)
                 clock.now = t0 + {"lt": ttl - 1, "eq": ttl, "gt": ttl + 1}[c["age"]]
+                if c["mut"] == "stale":
+                    # keep the stream alive up to the last instant its call token is valid, on the judged worker:
+                    # that continuation hands out a fresh cursor; one second later the call token is beyond the TTL
+                    clock.now = t0 + ttl
+                    ka = wk.cont("xa", ident, cur, call)
+                    if not ka["served"] or ka["cursor"] is None:
+                        ctx.violation("GenuineServed", {"which": "call", "mut": "keepalive", "age": "eq", "cache": c["cache"], "op": "continue",
+                                                        "message_class": None}, {"error": ka["error"]})
+                        continue
+                    cur = ka["cursor"]
+                    clock.now = t0 + ttl + 1
                 for vi, v in enumerate(vs):
                     pc, pl = (v, call) if c["which"] == "cursor" else (cur, v)
                     n0 = len(H.HOOKS)
@@ -161,6 +177,6 @@ def run(ctx: Ctx) -> None:
         c = obs[idx]["case"]
         for cl in clauses:
             msg = meta[idx]["message"] or ""
-            ctx.violation(cl, {"which": c["which"], "mut": c["mut"], "age": c["age"], "cache": c["cache"], "op": c["op"],
+            ctx.violation(cl, {"which": c["which"], "mut": c["mut"], "age": c["age"], "cache": c["cache"], "op": c["op"], "ttl": c["ttl"],
                                "message_class": re.sub(r"[^A-Za-z ]", "", msg)[:90] if cl == "UniformRejection" else None},
                           {"observed": obs[idx]["obs"], **meta[idx]})
